@@ -56,7 +56,7 @@ def run(ctx):
                 meta.append(("qpoint", "ppm", k))
             ctx.case(("qpoint", k, s), {"ook.theory_BER": [2 * k * s, s, s], "->": v})
     # ---- general two-level points: relations through API programs only
-    for it in range(150 if T else 50):
+    for it in range(800 if T else 50):
         s0, s1 = 10 ** rnd.uniform(-3, 0), 10 ** rnd.uniform(-3, 0)
         if it % 4 == 0:
             s1 = s0
@@ -124,7 +124,7 @@ def run(ctx):
                         ev("inside", "threshold-inside-[mu0,mu1]", lo=sci(mu0 + 100), x=sci(th + 100), hi=sci(mu0 + mu + 100))
         ctx.case(("two-level", M, s0 == s1, mu / max(s0, s1) > 8), {"mu": mu, "s0": s0, "s1": s1, "M": M})
     # ---- receiver model
-    for it in range(120 if T else 40):
+    for it in range(600 if T else 40):
         P = rnd.uniform(-50, 0)
         M = rnd.choice([2, 4, 16, 256])
         mod = "ook" if it % 3 == 0 else "ppm"
